@@ -1,0 +1,70 @@
+//go:build verif
+
+package exit
+
+// Machine-checked contracts for /verif (govc). Comment-only, compiled only
+// with -tags verif; changes no behaviour.
+//
+// C19: the exit dials only when the resolved address lies in one of the
+// currently allowed networks (configured or dynamic), or the requested name
+// matched an allowed domain pattern.
+
+//@ ghost func ipAllowed(routes []*net.IPNet, n int, ip net.IP) bool
+
+//@ func (*Handler).isAllowed
+//@ prop C19
+//@ check bounds
+//@ loop 0 invariant -1 <= rangeindex && forall j in 0..rangeindex+1: !ipInNet(h.cfg.AllowedRoutes[j], ip)
+//@ ensures result <==> exists j in 0..len(h.cfg.AllowedRoutes): ipInNet(h.cfg.AllowedRoutes[j], ip)
+//@ ensures len(h.cfg.AllowedRoutes) == 0 ==> !result
+//@ ensures h.cfg.AllowedRoutes == old(h.cfg.AllowedRoutes)
+
+// Single-level wildcard: d = <label> "." b where the label is non-empty and contains no dot.
+//@ ghost func wildMatch(d string, b string) bool = hassuffix(d, "." + b) && len(d) > len(b) + 1 && !containschar(d[0:len(d) - len(b) - 1], '.')
+//@ ghost func patMatch(dp DomainPattern, d string) bool = ite(dp.IsWildcard, wildMatch(lower(d), lower(dp.BaseDomain)), lower(d) == lower(dp.Pattern))
+//@ ghost func domainOK(h *Handler, domain string) bool
+
+//@ func (*Handler).isDomainAllowed
+//@ prop C19
+//@ check bounds
+//@ loop 0 invariant -1 <= rangeindex && forall k in 0..rangeindex+1: !patMatch(h.cfg.AllowedDomains[k], old(domain))
+//@ loop 0 invariant domain == lower(old(domain))
+//@ ensures result ==> exists k in 0..len(h.cfg.AllowedDomains): patMatch(h.cfg.AllowedDomains[k], domain)
+//@ ensures (exists k in 0..len(h.cfg.AllowedDomains): patMatch(h.cfg.AllowedDomains[k], domain)) ==> result
+//@ ensures len(h.cfg.AllowedDomains) == 0 ==> !result
+
+//@ func (*Handler).HandleStreamOpen$1
+//@ prop C19
+//@ requires domainAllowed ==> (exists k in 0..len(h.cfg.AllowedDomains): patMatch(h.cfg.AllowedDomains[k], destAddr))
+
+//@ func (*Handler).HandleStreamOpen
+//@ prop C19
+
+//@ func (*Handler).handleStreamOpenAsync
+//@ prop C19
+//@ requires domainAllowed ==> (exists k in 0..len(h.cfg.AllowedDomains): patMatch(h.cfg.AllowedDomains[k], destAddr))
+//@ after call (*Handler).isAllowed let okByRoute = $ret && (exists j in 0..len(h.cfg.AllowedRoutes): ipInNet(h.cfg.AllowedRoutes[j], ip))
+//@ at call DialContext assert (domainAllowed && old(exists k in 0..len(h.cfg.AllowedDomains): patMatch(h.cfg.AllowedDomains[k], destAddr))) || okByRoute
+
+//@ census[C19] DialContext in (*Handler).handleStreamOpenAsync, (*Resolver).Resolve$1
+//@ census[C19] (*Handler).handleStreamOpenAsync in (*Handler).HandleStreamOpen$1
+
+//@ func (*Handler).AddAllowedRoute
+//@ prop C19
+//@ check bounds
+//@ ensures len(h.cfg.AllowedRoutes) == old(len(h.cfg.AllowedRoutes)) + 1
+//@ ensures h.cfg.AllowedRoutes[old(len(h.cfg.AllowedRoutes))] == network
+//@ ensures forall j in 0..old(len(h.cfg.AllowedRoutes)): h.cfg.AllowedRoutes[j] == old(h.cfg.AllowedRoutes[j])
+
+//@ func (*Handler).RemoveAllowedRoute
+//@ prop C19
+//@ check bounds alloc
+//@ requires network != nil
+//@ loop 0 invariant -1 <= rangeindex && rangeindex < len(h.cfg.AllowedRoutes) && len(kept) <= rangeindex + 1 && cap(kept) == len(h.cfg.AllowedRoutes) && base(kept) != base(h.cfg.AllowedRoutes) && base(kept) != 0 && offset(kept) == 0
+//@ loop 0 invariant forall j in 0..len(kept): netKey(kept[j]) != netKey(network)
+//@ loop 0 invariant forall j in 0..len(h.cfg.AllowedRoutes): h.cfg.AllowedRoutes[j] == old(h.cfg.AllowedRoutes[j])
+//@ loop 0 invariant h.cfg.AllowedRoutes == old(h.cfg.AllowedRoutes)
+//@ loop 0 invariant removed <==> exists j in 0..rangeindex+1: netKey(h.cfg.AllowedRoutes[j]) == netKey(network)
+//@ ensures forall j in 0..len(h.cfg.AllowedRoutes): netKey(h.cfg.AllowedRoutes[j]) != netKey(network)
+//@ ensures result ==> exists j in 0..old(len(h.cfg.AllowedRoutes)): netKey(old(h.cfg.AllowedRoutes[j])) == netKey(network)
+//@ ensures (exists j in 0..old(len(h.cfg.AllowedRoutes)): netKey(old(h.cfg.AllowedRoutes[j])) == netKey(network)) ==> result
